@@ -46,6 +46,19 @@ CHECKS["C04"] = dict(
     design="4 (C04), 5 (D13)",
     note="strict mode, TCP (no expiry) in the correspondence; UDP expiry is C10.")
 
+CHECKS["C17"] = dict(
+    engine="dec",
+    technique="Lean 4 proof (filter/erase commutation theorems over the decoder model) + three-mode differential correspondence + exhaustive registry cross-check",
+    text="Proved for the decoder model: strict_only_registry (strict mode accepts only registry elements), keep_preserves (an unknown field is "
+         "delivered as exactly the payload bytes of its complete wire field), strict_data_eq_keep, drop_omits (drop = keep filtered to the known "
+         "positions, same bytes consumed), known_fields_independent (cutting the unknown fields out of template and record yields exactly the "
+         "known values - uses the completeness direction of the independent slicing relation), tie_no_empty_names (the empty-name marker cannot "
+         "collide with a decodable registry element). The same wire bytes are decoded by the real collector under the three modes and with the "
+         "unknown fields cut out; Ipfix.C17.holdsCase is evaluated on the implementation's eight observations per case; the regenerated "
+         "registry table is compared with GetInfoElementFromID for 4 x 65536 keys.",
+    design="4 (C17)",
+    note="unknown elements of length 0 are rejected in all modes since fix 52ccd48.")
+
 NOT_YET = {}
 
 
